@@ -97,9 +97,9 @@ CLAIMED["C18"] = (
     "DESIGN.md §4 C18")
 
 CLAIMED["C19"] = (
-    "solver-driven case split over tree shapes, leaf labelings and distance matrices on the compiled phylo extensions against explicit path sums and an average-linkage recomputation",
-    "Bounded model checking (class E: z3 variables select shapes, labelings and matrix entries; everything within the bound is executed). 8 tree shapes incl. single-child chains x up to 24 labelings: Newick round trips (labels, no distances, whitespace), copy, binary conversion, every leaf-to-leaf distance and LCA vs path sums. UPGMA on every menu matrix with n <= 4 (5): each index one leaf, ultrametric, merge heights = half average linkage. Neighbour joining on additive matrices incl. duplicated taxa and the zero matrix: all path lengths reproduced.",
-    "Trusted: the nested-tuple tree model and oracles in obligations/sx_c19.py, numpy, z3 as enumeration driver. tree.pyx / upgma.pyx / nj.pyx are checked as compiled black boxes (a .pyx edit is only seen after the extension is rebuilt). Outside: float rounding beyond 1e-4, n > 5, Newick strings not produced by the writer.",
+    "bounded symbolic execution of upgma.pyx / nj.pyx over exact rationals (real-number semantics) and of the Newick writer/parser of tree.pyx over symbolic label strings, lowered from the .pyx source (z3), plus solver-driven case split over the compiled phylo extensions",
+    "Bounded model checking. Class S (KX engine, source level): UPGMA on EVERY symmetric matrix over n <= 4 (5) taxa with symbolic entries: each index one leaf, ultrametric, each node at half the average-linkage distance of its clusters over the original matrix, merged pair minimal; neighbour joining on EVERY additive matrix of all 4-leaf and four 5-leaf topologies with symbolic edge lengths (zero lengths = ties included): all leaf-to-leaf path lengths reproduced; TreeNode.to_newick -> from_newick with symbolic labels (every printable ASCII character the writer accepts, lengths 1..2 (3)) on 4 tree shapes with and without distances (this is where the solver found the recorded whitespace-label defect). Class E (compiled modules): 8 tree shapes x labelings through Newick/copy/as_binary/get_distance/LCA/==/hash; UPGMA and NJ on matrix menus.",
+    "Trusted: the plain node model standing for the compiled TreeNode/Tree in the S obligations, the rational abstraction (float32 rounding of upgma/nj is outside; the E obligations run the compiled code with a 1e-4 tolerance), the path-sum oracle, z3, the kx lowering (validated against the compiled functions on concrete matrices each run). tree.pyx distance/LCA/copy/as_binary code is checked as a compiled black box only. Outside: n > 5, label lengths > 3, non-ASCII labels, Newick strings not produced by the writer.",
     "DESIGN.md §4 C19")
 
 CLAIMED["C10"] = (
